@@ -304,3 +304,179 @@ pub fn replay_dist(args: &Args) {
         out.line(&json!({"id": cases.len(), "status": "violation", "mismatch": [{"class": "panic", "what": "no panic for profiles of different games"}]}));
     }
 }
+
+/// carrier game from a description of the two sides (names as in Strategy.tla)
+fn carrier(sides: &Value) -> Tree {
+    let mut kids = Vec::new();
+    let mut pay = 0i64;
+    for pl in 0..2 {
+        for m in sides[pl]["multi"].as_array().unwrap() {
+            kids.push(CKid {
+                w: Num::I(1),
+                t: Tree::P {
+                    pl: pl as u8 + 1,
+                    info: m["name"].as_str().unwrap().to_string(),
+                    kids: m["acts"]
+                        .as_array()
+                        .unwrap()
+                        .iter()
+                        .map(|a| {
+                            pay = (pay * 7 + 3) % 11 - 5;
+                            PKid {
+                                a: a.as_str().unwrap().to_string(),
+                                t: Tree::T { pay: Num::I(pay) },
+                            }
+                        })
+                        .collect(),
+                },
+            });
+        }
+        for s in sides[pl]["single"].as_array().unwrap() {
+            kids.push(CKid {
+                w: Num::I(1),
+                t: Tree::P {
+                    pl: pl as u8 + 1,
+                    info: s["name"].as_str().unwrap().to_string(),
+                    kids: vec![PKid {
+                        a: s["act"].as_str().unwrap().to_string(),
+                        t: Tree::T { pay: Num::I(1) },
+                    }],
+                },
+            });
+        }
+    }
+    Tree::C {
+        ci: "none".to_string(),
+        kids,
+    }
+}
+
+fn weight(w: &Value, scale: f64) -> f64 {
+    match w["t"].as_str().unwrap() {
+        "nan" => f64::NAN,
+        "inf" => f64::INFINITY,
+        "ninf" => f64::NEG_INFINITY,
+        _ => w["k"].as_i64().unwrap() as f64 * scale,
+    }
+}
+
+type Named = Vec<(String, Vec<(String, f64)>)>;
+
+fn entry_lists(lists: &Value, scale: f64) -> [Named; 2] {
+    let side = |l: &Value| -> Named {
+        l.as_array()
+            .unwrap()
+            .iter()
+            .map(|e| {
+                (
+                    e["info"].as_str().unwrap().to_string(),
+                    e["acts"]
+                        .as_array()
+                        .unwrap()
+                        .iter()
+                        .map(|p| (p["a"].as_str().unwrap().to_string(), weight(&p["w"], scale)))
+                        .collect(),
+                )
+            })
+            .collect()
+    };
+    [side(&lists[0]), side(&lists[1])]
+}
+
+/// C14: replay entry lists into both import paths
+pub fn replay_import(args: &Args) {
+    let cases = util::read_ndjson(args.get("exp"));
+    let mut out = Out::create(args.get("out"));
+    for (n, row) in cases.iter().enumerate() {
+        let case = &row["exp"];
+        let scale_name = case["scale"].as_str().unwrap();
+        let scale = match scale_name {
+            "one" => 1.0,
+            "tiny" => 2f64.powi(-1070),
+            "huge" => 2f64.powi(1000),
+            "max" => 2f64.powi(1023),
+            other => panic!("scale {other}"),
+        };
+        let tree = carrier(&case["sides"]);
+        let lists = entry_lists(&case["lists"], scale);
+        let (l1, l2) = (lists.clone(), lists.clone());
+        let res = util::catch(move || {
+            let game = tree::build(&tree).expect("carrier game");
+            let fast = game.from_named(l1).map(|s| s.verif_dense()).map_err(|e| format!("{e:?}"));
+            let slow = game.from_named_eq(l2).map(|s| s.verif_dense()).map_err(|e| format!("{e:?}"));
+            (fast, slow)
+        });
+        let mut bad = Vec::new();
+        let mut dev = false;
+        let exp_err = case["exp"]["err"].as_str().unwrap();
+        // does the total of some infoset overflow f64 although every weight is finite?
+        let overflow = scale_name == "max"
+            && case["exp"]["probs"].as_array().map_or(false, |ps| {
+                ps.iter().any(|side| {
+                    side.as_array().unwrap().iter().any(|v| {
+                        v.as_array().unwrap().iter().filter(|q| q[0].as_i64() != Some(0)).count() >= 2
+                    })
+                })
+            });
+        match res {
+            Err(msg) => bad.push(json!({"class": "panic", "what": "import panicked", "observed": msg})),
+            Ok((fast, slow)) => {
+                let same = match (&fast, &slow) {
+                    (Ok(a), Ok(b)) => a == b,
+                    (Err(a), Err(b)) => a == b,
+                    _ => false,
+                };
+                if !same {
+                    bad.push(json!({"class": "paths", "what": "from_named and from_named_eq disagree",
+                        "observed": [format!("{fast:?}"), format!("{slow:?}")]}));
+                }
+                for (path, got) in [("from_named", &fast), ("from_named_eq", &slow)] {
+                    match got {
+                        Ok(dense) => {
+                            if exp_err != "none" {
+                                bad.push(json!({"class": "accepts", "what": "import accepted an invalid named strategy", "path": path,
+                                    "violated": case["violated"]}));
+                            } else {
+                                let mut ok = true;
+                                for pl in 0..2 {
+                                    let want: Vec<f64> = case["exp"]["probs"][pl]
+                                        .as_array()
+                                        .unwrap()
+                                        .iter()
+                                        .flat_map(|v| v.as_array().unwrap().iter().map(util::rat))
+                                        .collect();
+                                    if want.len() != dense[pl].len()
+                                        || !want.iter().zip(dense[pl].iter()).all(|(a, b)| util::close(*b, *a, 1e-12))
+                                    {
+                                        ok = false;
+                                    }
+                                }
+                                if !ok {
+                                    bad.push(json!({"class": if overflow {"overflow"} else {"value"}, "what": "imported probabilities differ from weight / total", "path": path,
+                                        "observed": dense, "specified": case["exp"]["probs"]}));
+                                }
+                            }
+                        }
+                        Err(kind) => {
+                            if exp_err == "none" {
+                                bad.push(json!({"class": "rejects", "what": "import rejected a valid named strategy", "path": path, "observed": kind}));
+                            } else if !case["violated"].as_array().unwrap().iter().any(|v| v.as_str() == Some(kind)) {
+                                bad.push(json!({"class": "kind", "what": "error names a rule that is not violated", "path": path,
+                                    "observed": kind, "violated": case["violated"]}));
+                            } else if kind != exp_err {
+                                dev = true;
+                            }
+                        }
+                    }
+                }
+            }
+        }
+        if !bad.is_empty() {
+            out.line(&json!({"id": n, "status": "violation", "mismatch": bad}));
+        } else if dev {
+            out.line(&json!({"id": n, "status": "deviation"}));
+        } else {
+            out.line(&json!({"id": n, "status": "ok", "nontrivial": true}));
+        }
+    }
+}
